@@ -306,6 +306,8 @@ def _ctor_str(x='', *a):
         raise Unsupported('str(SymFloat)')
     if isinstance(x, SymBytes):
         raise Unsupported('str(SymBytes)')
+    if hasattr(x, '__symstr__'):
+        return x.__symstr__()
     return _b.str(x)
 
 
